@@ -148,12 +148,12 @@ TraceCb ==
            ends  == [j \in 1..natt |-> evs[j * per]]
            shape == /\ body >= per /\ body % per = 0
                     /\ \A j \in 1..natt - 1 : ends[j] > ends[j + 1]
-                    /\ ends[natt] = e.x.r
+                    /\ ends[natt] = e.xin.r                          \* (xin: x as the solver passed it; the callback may move x)
                     /\ \A j \in 1..Len(evs) : evs[j] >= e.xold.r /\ evs[j] <= ends[1]
            implicitM == C.method \in {"RADAU", "BDF"} /\ C.api = "low"
            ip == IF first \/ ~implicitM \/ A.gapped \/ Len(A.iv) >= 4000 THEN [ok |-> TRUE, att |-> 0, it |-> 0]
-                 ELSE IF C.method = "RADAU" THEN RadauParse(evs, 1, e.xold.r, e.x.r, -1, 0, 0)
-                 ELSE BdfParse(evs, 1, e.xold.r, e.x.r, -1, 0, 0)
+                 ELSE IF C.method = "RADAU" THEN RadauParse(evs, 1, e.xold.r, e.xin.r, -1, 0, 0)
+                 ELSE BdfParse(evs, 1, e.xold.r, e.xin.r, -1, 0, 0)
            lbok  == (first \/ ~explicit \/ Len(A.iv) >= 4000 \/ A.gapped \/ shape) /\ ip.ok
            nrejNow == IF first \/ ~explicit \/ ~shape THEN 0 ELSE natt - 1
            \* rejection counting rule of the code: RK23 counts every rejection; DOPRI5/DOP853 only once two steps were accepted
@@ -242,6 +242,7 @@ TraceRet ==
 TraceAbort ==
     /\ IsEvent("abort")
     /\ Viol("C04", "abort_" \o Rec[l].why, FALSE)
+    /\ Viol("C15", "mass_reference", ~Rec[l].mass_unsolved)     \* y' = M^-1 f is solvable, M y' = f was not solved
     /\ Viol("C03", "evals_in_span", C03_EvalsInSpan(A))
     /\ A' = [A EXCEPT !.active = FALSE]
     /\ UNCHANGED C
@@ -262,6 +263,10 @@ TracePair ==
                   [] p.mode = "budget_prefix"   -> PViol(p, Rel_BudgetPrefix(Ra, Cb, Rb))
                   [] p.mode = "terminal_prefix" -> PViol(p, Rel_TerminalPrefix(Ra, Cb, Rb) /\ p.fact)
                   [] p.mode = "grid_values"     -> PViol(p, p.fact)
+                  \* duplication: unchanged "up to rounding in the error norm": counters and status equal, all copies of the
+                  \* duplicated run bit-identical to each other, times / states equal to rounding (fact of the recorder)
+                  [] p.mode = "copies"          -> PViol(p, p.fact /\ Ra.status = Rb.status /\ Counters(Ra) = Counters(Rb)
+                                                              /\ (IsSol(Rb) => Rb.copies_eq))
                   [] p.mode = "mirror_events"   -> PViol(p, p.fact /\ (Ra.status = Rb.status))
                   [] p.mode = "prefix_cb"       -> PViol(p, Rel_PrefixCb(Ra, Cb, Rb))
                   [] p.mode = "equal_cb"        -> PViol(p, Rel_EqualCb(Ra, Rb))
